@@ -44,3 +44,45 @@ func Par(ctx context.Context, e cff.Emitter, keepGoing bool) error {
 		cff.Tasks(func() {}, func(context.Context) error { return errors.New("x") }),
 	)
 }
+
+// TaskOnly: tasks are instrumented but the flow itself is not (no InstrumentFlow); one task is gated
+// off so that the skipped sweep matters.
+func TaskOnly(ctx context.Context, e cff.Emitter, on bool) (int, error) {
+	var out int
+	err := cff.Flow(ctx,
+		cff.WithEmitter(e),
+		cff.Params(on),
+		cff.Results(&out),
+		cff.Task(func() int64 { return 1 }, cff.Instrument("seed")),
+		cff.Task(
+			func(v int64) (int, error) { return int(v) + 1, nil },
+			cff.Predicate(func(b bool) bool { return b }),
+			cff.Instrument("maybe"),
+			cff.FallbackWith(0),
+		),
+	)
+	return out, err
+}
+
+// FlowOnly: the flow is instrumented, no task is.
+func FlowOnly(ctx context.Context, e cff.Emitter) (int, error) {
+	var out int
+	err := cff.Flow(ctx,
+		cff.WithEmitter(e),
+		cff.InstrumentFlow("instr.FlowOnly"),
+		cff.Results(&out),
+		cff.Task(func() int { return 7 }),
+	)
+	return out, err
+}
+
+// ParTaskOnly: instrumented parallel tasks without InstrumentParallel, plus un-instrumented Slice/Map.
+func ParTaskOnly(ctx context.Context, e cff.Emitter, xs []int, m map[string]int) error {
+	return cff.Parallel(ctx,
+		cff.WithEmitter(e),
+		cff.Task(func() error { return nil }, cff.Instrument("a")),
+		cff.Task(func(context.Context) {}, cff.Instrument("b")),
+		cff.Slice(func(i, v int) {}, xs),
+		cff.Map(func(k string, v int) error { return nil }, m),
+	)
+}
